@@ -935,3 +935,151 @@ Proof.
     intros v. pose proof (r_phase_bal le sc tw hash txs _ t' HIw Er v). specialize (Hbal v). specialize (HS v). lia.
   - exact (same_ledger_slot t t' (TowerLedger.disconnect_bal le t sc t' _ Es) HS).
 Qed.
+
+(* ------------------------------------------------------------------------------------------ *)
+(* 7. the bootstrap state satisfies the big invariant *)
+
+Lemma NoDup_firstn {A} n : forall (l : list A), NoDup l -> NoDup (firstn n l).
+Proof.
+  induction n as [|n IH]; intros [|x l] H; cbn [firstn]; try constructor.
+  - apply NoDup_cons_iff in H. destruct H as [Hx Hl]. intros Hin. apply Hx.
+    rewrite <- (firstn_skipn n l). apply in_or_app. left. exact Hin.
+  - apply IH. apply NoDup_cons_iff in H. tauto.
+Qed.
+
+Lemma idx_updates_val bs : forall (i i' : txindex N),
+  idx_wf i -> idx_val i -> NoDup (map ib_hash bs) -> (forall b, In b bs -> ~ In (ib_hash b) (ti_blocks i)) ->
+  (forall b, In b bs -> blk_self b) -> ti_updates i bs = Some i' -> idx_val i'.
+Proof.
+  induction bs as [|b bs IH]; intros i i' Hwf Hv Hnd Hfr Hself E; cbn [ti_updates] in E; [inversion E; subst; exact Hv|].
+  destruct (ti_update i b) as [i1|] eqn:E1; [|discriminate].
+  cbn [map] in Hnd. apply NoDup_cons_iff in Hnd. destruct Hnd as [Hb Hnd].
+  destruct (idx_wf_update i b i1 Hwf (Hfr b (or_introl eq_refl)) E1) as [Hwf1 [_ Hsub]].
+  pose proof (idx_val_update i b i1 Hv (Hself b (or_introl eq_refl)) (Hfr b (or_introl eq_refl)) E1) as Hv1.
+  apply (IH i1 i' Hwf1 Hv1 Hnd); [| |exact E].
+  - intros b' Hb' Hin. destruct (Hsub _ Hin) as [H|H].
+    + apply (Hfr b' (or_intror Hb')). exact H.
+    + apply Hb. rewrite <- H. apply in_map. exact Hb'.
+  - intros b' Hb'. apply Hself. right. exact Hb'.
+Qed.
+
+Lemma hashes_rev (f : N * list N -> iblock N) (l : list (N * list N)) :
+  (forall b, ib_hash (f b) = fst b) -> map ib_hash (rev (map f l)) = rev (map fst l).
+Proof. intros Hf. rewrite map_rev, map_map. f_equal. apply map_ext. exact Hf. Qed.
+
+(* bootstrap hypotheses: the last blocks handed to the tower have pairwise distinct hashes (they are
+   blocks of one chain) and do not include the genesis block (|blocks| <= height of the tip) *)
+Theorem big_init c h0 boot t0 :
+  init c h0 boot = Some t0 -> NoDup (map fst boot) -> N.of_nat (length boot) <= h0 -> BigInv t0.
+Proof.
+  intros Hi Hnd Hlen. constructor.
+  - exact (inv_init _ _ _ _ Hi).
+  - exact (chain_inv_init _ _ _ _ Hi Hnd).
+  - unfold init in Hi. change (Z.to_nat Consts.WATCHER_CACHE_FROM) with 0%nat in Hi.
+    set (n := Z.to_nat Consts.WATCHER_CACHE_TO) in Hi. unfold sublist in Hi. cbn [skipn] in Hi. rewrite Nat.sub_0_r in Hi.
+    destruct (ti_new (map (fun b => cache_block (fst b) (snd b)) (firstn n boot)) (Z.of_N h0)) as [wc|] eqn:Ew; [|discriminate].
+    destruct (ti_new (map (fun b => index_block (fst b) (snd b)) boot) (Z.of_N h0)) as [ri|] eqn:Er; [|discriminate].
+    inversion Hi. subst t0. clear Hi. cbn [w_cache r_index].
+    destruct (ti_new_blocks _ _ _ Ew) as [Hwb [Hws Hwt]]. destruct (ti_new_blocks _ _ _ Er) as [Hrb [Hrs Hrt]].
+    rewrite (hashes_rev (fun b => cache_block (fst b) (snd b))) in Hwb by reflexivity.
+    rewrite (hashes_rev (fun b => index_block (fst b) (snd b))) in Hrb by reflexivity.
+    constructor; cbn [w_cache r_index].
+    + unfold ti_new in Ew. destruct (ti_updates _ _) as [tw|] eqn:Eu; [|discriminate]. inversion Ew.
+      assert (Hwf : idx_wf tw).
+      { eapply (idx_wf_updates _ _ tw); [| | |exact Eu].
+        - split; cbn [ti_blocks]; [constructor|intros h []].
+        - rewrite (hashes_rev (fun b => cache_block (fst b) (snd b))) by reflexivity. apply NoDup_rev.
+          rewrite <- firstn_map. apply NoDup_firstn. exact Hnd.
+        - intros b _ []. }
+      destruct Hwf as [H1 H2]. split; cbn [ti_blocks ti_txs]; assumption.
+    + unfold ti_new in Er. destruct (ti_updates _ _) as [tr|] eqn:Eu; [|discriminate]. inversion Er.
+      assert (Hv : idx_val tr).
+      { eapply (idx_updates_val _ _ tr); [| | | | |exact Eu].
+        - split; cbn [ti_blocks]; [constructor|intros h []].
+        - intros k v [].
+        - rewrite (hashes_rev (fun b => index_block (fst b) (snd b))) by reflexivity. apply NoDup_rev. exact Hnd.
+        - intros b _ [].
+        - intros b Hb. apply in_rev in Hb. apply in_map_iff in Hb. destruct Hb as [x [Hx _]]. subst b. apply index_block_self. }
+      exact Hv.
+    + unfold len_ok. rewrite Hrb, Hrt, rev_length, map_length. lia.
+    + rewrite Hwb, Hrb. exists (rev (map fst (skipn n boot))).
+      rewrite <- rev_app_distr, <- map_app, firstn_skipn. reflexivity.
+    + rewrite Hws, Hrs, !map_length. rewrite firstn_length. lia.
+  - unfold init in Hi. destruct (ti_new _ _); [|discriminate]. destruct (ti_new _ _); [|discriminate].
+    inversion Hi. subst t0. intros u ui. cbn [db_users aget]. discriminate.
+  - unfold init in Hi. destruct (ti_new _ _); [|discriminate]. destruct (ti_new _ _); [|discriminate].
+    inversion Hi. subst t0. intros v. unfold TowerLedger.bal, TowerLedger.avail, TowerLedger.held_t.
+    cbn [db_users db_apps aget filter TowerLedger.ssum fold_right]. unfold U32MAX. lia.
+Qed.
+
+(* ------------------------------------------------------------------------------------------ *)
+(* 8. histories *)
+
+Theorem no_abort_from le : forall h t,
+  BigInv t -> in_envelope le t h = true -> chain_disciplined le t h = true ->
+  Forall not_abort (snd (run le t h)) /\ BigInv (fst (run le t h)) /\ length (snd (run le t h)) = length h.
+Proof.
+  induction h as [|[o sc] h IH]; intros t HB He Hc; cbn [run].
+  - split; [constructor|split; [exact HB|reflexivity]].
+  - cbn [in_envelope chain_disciplined] in He, Hc. apply andb_true_iff in He, Hc.
+    destruct He as [He1 He2]. destruct Hc as [Hc1 Hc2].
+    pose proof (step_never_aborts le t o sc HB He1) as Hna. pose proof (step_big le t o sc HB He1 Hc1) as HB1.
+    destruct (step le t o sc) as [t1 x]. cbn [fst snd] in *.
+    specialize (IH t1 HB1 He2 Hc2). destruct (run le t1 h) as [t2 xs]. cbn [fst snd] in IH. destruct IH as [A [B C]].
+    destruct x; try contradiction; cbn [fst snd length];
+      (split; [constructor; [exact I|exact A]|split; [exact B|f_equal; exact C]]).
+Qed.
+
+(* C11 no_abort_seq: from a bootstrapped tower, along EVERY history of requests, block events and node
+   answers inside the envelope and the chain discipline, for both values of the logging flag, no handler
+   aborts. *)
+Theorem no_abort_seq le c h0 blocks t0 h :
+  init c h0 blocks = Some t0 -> NoDup (map fst blocks) -> N.of_nat (length blocks) <= h0 ->
+  in_envelope le t0 h = true -> chain_disciplined le t0 h = true ->
+  Forall not_abort (snd (run le t0 h)).
+Proof.
+  intros Hi Hnd Hlen He Hc. exact (proj1 (no_abort_from le h t0 (big_init c h0 blocks t0 Hi Hnd Hlen) He Hc)).
+Qed.
+
+Theorem big_inv_reachable le c h0 blocks t0 h :
+  init c h0 blocks = Some t0 -> NoDup (map fst blocks) -> N.of_nat (length blocks) <= h0 ->
+  in_envelope le t0 h = true -> chain_disciplined le t0 h = true ->
+  BigInv (fst (run le t0 h)).
+Proof.
+  intros Hi Hnd Hlen He Hc. exact (proj1 (proj2 (no_abort_from le h t0 (big_init c h0 blocks t0 Hi Hnd Hlen) He Hc))).
+Qed.
+
+(* Poisoning.  Tower.v has no poisoned-lock flag: an abort ends `run` (the tower is dead, nothing later is
+   answered).  In that representation "no poisoned lock" reads: the outputs are as many as the operations. *)
+Lemma run_no_abort_complete le : forall h t,
+  Forall not_abort (snd (run le t h)) -> length (snd (run le t h)) = length h.
+Proof.
+  induction h as [|[o sc] h IH]; intros t; cbn [run]; [reflexivity|].
+  destruct (step le t o sc) as [t1 x]. specialize (IH t1). destruct (run le t1 h) as [t2 xs]. cbn [fst snd] in *.
+  destruct x; cbn [snd length]; intros Hall; inversion Hall; subst; try contradiction; f_equal; apply IH; assumption.
+Qed.
+
+(* an abort is final: it is the last output, and the rest of the history is never processed *)
+Lemma run_abort_is_last le : forall h t s,
+  In (OAbort s) (snd (run le t h)) -> exists xs, snd (run le t h) = xs ++ [OAbort s] /\ Forall not_abort xs.
+Proof.
+  induction h as [|[o sc] h IH]; intros t s; cbn [run]; [intros []|].
+  destruct (step le t o sc) as [t1 x]. specialize (IH t1 s). destruct (run le t1 h) as [t2 xs]. cbn [fst snd] in *.
+  destruct x; cbn [snd];
+    try (intros [Hx|Hin]; [discriminate|]; destruct (IH Hin) as [ys [Hy Hf]]; rewrite Hy;
+         eexists (_ :: ys); split; [reflexivity|constructor; [exact I|exact Hf]]).
+  intros [Hx|[]]. inversion Hx. subst. exists []. split; [reflexivity|constructor].
+Qed.
+
+(* C11 no_poison: inside the envelope every operation of the history is answered, by a non-abort output,
+   and afterwards the tower still answers: any further in-envelope operation gets a non-abort output. *)
+Theorem no_poison le c h0 blocks t0 h :
+  init c h0 blocks = Some t0 -> NoDup (map fst blocks) -> N.of_nat (length blocks) <= h0 ->
+  in_envelope le t0 h = true -> chain_disciplined le t0 h = true ->
+  length (snd (run le t0 h)) = length h /\ Forall not_abort (snd (run le t0 h)) /\
+  forall o sc, envb (fst (run le t0 h)) o = true -> not_abort (snd (step le (fst (run le t0 h)) o sc)).
+Proof.
+  intros Hi Hnd Hlen He Hc.
+  destruct (no_abort_from le h t0 (big_init c h0 blocks t0 Hi Hnd Hlen) He Hc) as [A [B C]].
+  split; [exact C|]. split; [exact A|]. intros o sc Ho. exact (step_never_aborts le _ o sc B Ho).
+Qed.
